@@ -66,6 +66,25 @@ impl Script {
   pub fn polls(&self) -> usize {
     self.st.lock().unwrap().polls
   }
+  /// items the script will still yield (what an honest, exact `size_hint` reports)
+  fn remaining_items(&self, fail_is_item: bool) -> usize {
+    let pos = self.st.lock().unwrap().pos;
+    let mut n = 0;
+    for st in self.steps.iter().skip(pos) {
+      match st {
+        Step::Item(_) => n += 1,
+        Step::Fail => {
+          if fail_is_item {
+            n += 1;
+          }
+          break;
+        }
+        Step::End => break,
+        Step::Pending => {}
+      }
+    }
+    n
+  }
   fn poll_step(&self, cx: &mut Context<'_>) -> Poll<Step> {
     let mut s = self.st.lock().unwrap();
     s.polls += 1;
@@ -102,6 +121,11 @@ impl Stream for PlainStream {
       Poll::Ready(_) => Poll::Ready(None),
     }
   }
+  /// exact, like `stream::iter` / `stream::empty`
+  fn size_hint(&self) -> (usize, Option<usize>) {
+    let n = self.0.remaining_items(false);
+    (n, Some(n))
+  }
 }
 pub struct TryStream(pub Script);
 impl Stream for TryStream {
@@ -113,6 +137,10 @@ impl Stream for TryStream {
       Poll::Ready(Step::Fail) => Poll::Ready(Some(Err(E::E1))),
       Poll::Ready(_) => Poll::Ready(None),
     }
+  }
+  fn size_hint(&self) -> (usize, Option<usize>) {
+    let n = self.0.remaining_items(true);
+    (n, Some(n))
   }
 }
 /// future: resolves to the first Item / Fail of the script
@@ -311,7 +339,7 @@ fn check_time_src(obs: &mut Obs, src: &Src, probe: &Probe, hist: &[String], prom
       format!(
         "{src:?} after [{}] (t={now}): {msg}; saw {:?}",
         hist.join(" "),
-        recs.iter().map(|x| format!("{:?}@{}", x.note, x.vt)).collect::<Vec<_>>()
+        recs.iter().take(12).map(|x| format!("{:?}@{}", x.note, x.vt)).collect::<Vec<_>>()
       ),
     );
   };
